@@ -266,7 +266,10 @@ func (w *CancelWorld) Do(a string) error {
 						for _, q := range w.reqs[:len(w.reqs)-1] {
 							aborted = aborted || q.cancelled
 						}
-						w.overlap = (len(st.Added) > 0 || len(st.Fetching) > 0) && (aborted || w.failed)
+						// "overlap" needs a worker of an earlier request that is still on its way (parked at a
+						// gate or point); a task that is still marked pending although nobody works on it
+						// any more is a settled, permanent wedge
+						w.overlap = (len(st.Added) > 0 || len(st.Fetching) > 0) && (aborted || w.failed) && len(w.net.Gates.Parked()) > 0
 					}
 				}
 				r.issued = true
